@@ -2,11 +2,12 @@ import HL.Lemmas.ParserErrPre
 /-
   Resynchronisation at blank lines (token level, list source).
 
-  `sync`: if the token stream in front of the journal loop is `X ++ nl1 :: nl2 :: y0 :: Y'`
-  with `nl1 nl2` Newline tokens, `y0` not an Indent and no EOF inside `X`, then the loop comes
-  back to its head with exactly `y0 :: Y'` in front of it: the result of the whole run is the
-  items parsed from `X ++ [nl1, nl2]` pushed onto the result of the run from `y0 :: Y'`, and
-  every error raised on the way sits on a token of `X ++ [nl1]`.
+  `sync`: if the token stream in front of the journal loop is `X ++ nl :: y0 :: Y'` with `nl`
+  a Newline token, `y0` neither an Indent nor a Newline (the first token of a line that starts
+  in column 1) and no EOF inside `X`, then the loop comes back to its head with exactly
+  `y0 :: Y'` in front of it: the result of the whole run is the items parsed from `X ++ [nl]`
+  pushed onto the result of the run from `y0 :: Y'`, and every error raised on the way sits on
+  a token of `X ++ [nl]`.  (`X` may itself end in Newline tokens: blank lines.)
 -/
 namespace HL.Parser
 open HL HL.Ast
@@ -43,23 +44,16 @@ theorem exists_first_eof (L : List Token) (h : ∃ t ∈ L, t.ty = .eof) :
         · rw [h]; exact hx
         · exact h3 t' h
 
-theorem nc_cross (tl : Nat) (X R : List Token) (t1 t2 t3 : Token) (h1 : t1.ty = .newline)
-    (h2 : t2.ty = .newline) (h3 : t3.ty ≠ .indent) : nc tl (X ++ t1 :: t2 :: t3 :: R) = none := by
+theorem nc_cross (tl : Nat) (X R : List Token) (t1 t2 : Token) (h1 : t1.ty = .newline)
+    (h2 : t2.ty ≠ .indent) (h3 : t2.ty ≠ .newline) : nc tl (X ++ t1 :: t2 :: R) = none := by
   rw [nc_append]
   cases nc tl X with
   | none => rfl
   | some k =>
     simp only [Option.bind_some, nc]
-    by_cases hk : 2 ≤ k
-    · simp [ncStep, hk, h1]
-    · have hs1 : ncStep k t1 = some (k + 1) := by simp [ncStep, hk, h1]
-      simp only [hs1]
-      by_cases hk1 : 2 ≤ k + 1
-      · simp [ncStep, hk1, h2]
-      · have hs2 : ncStep (k + 1) t2 = some (k + 2) := by simp [ncStep, hk1, h2]
-        simp only [hs2]
-        have : 2 ≤ k + 2 := by omega
-        simp [ncStep, this, h3]
+    have hs1 : ncStep k t1 = some 1 := by simp [ncStep, h1]
+    simp only [hs1]
+    simp [ncStep, h2, h3]
 
 theorem journalStep_newline {σ} (E : Env σ) (st : PState σ) (h : st.current.ty = .newline) :
     journalStep E st = (.nothing, advance E st) := by
@@ -84,12 +78,12 @@ theorem step_stream (st : PState (List Token)) (P : List Token) (e : Token) (Q :
 theorem measure_le_strm (st : PState (List Token)) : measure (listEnv num cls) st ≤ (strm st).length := by
   rw [measure_list]; split <;> simp [strm]
 
-/-- The blank-line resynchronisation theorem (see the file header). -/
-theorem sync (y0 : Token) (Y' : List Token) (nl1 nl2 : Token) (h1 : nl1.ty = .newline)
-    (h2 : nl2.ty = .newline) (hy : y0.ty ≠ .indent) (hE : ∃ t ∈ y0 :: Y', t.ty = .eof) :
+/-- The line-end resynchronisation theorem (see the file header). -/
+theorem sync (y0 : Token) (Y' : List Token) (nl : Token) (h1 : nl.ty = .newline)
+    (hy : y0.ty ≠ .indent) (hy' : y0.ty ≠ .newline) (hE : ∃ t ∈ y0 :: Y', t.ty = .eof) :
     ∀ (k : Nat) (X : List Token) (st : PState (List Token)), X.length ≤ k → (∀ t ∈ X, t.ty ≠ .eof) →
-      strm st = X ++ nl1 :: nl2 :: y0 :: Y' →
-      ∃ items new dy, (∀ x ∈ new, ∃ t ∈ X ++ [nl1], x.pos = t.pos) ∧
+      strm st = X ++ nl :: y0 :: Y' →
+      ∃ items new dy, (∀ x ∈ new, ∃ t ∈ X ++ [nl], x.pos = t.pos) ∧
         ∀ n m, measure (listEnv num cls) st ≤ n →
           measure (listEnv num cls) ⟨Y', y0, st.errors ++ new, dy⟩ ≤ m →
           parseJournalF (listEnv num cls) n st =
@@ -102,35 +96,24 @@ theorem sync (y0 : Token) (Y' : List Token) (nl1 nl2 : Token) (h1 : nl1.ty = .ne
     intro X st hk hX hs
     have hX0 : X = [] := List.eq_nil_of_length_eq_zero (by omega)
     subst hX0
-    -- two Newline iterations
-    have hc1 : st.current = nl1 := by simp [strm] at hs; exact hs.1
-    have hsrc : st.src = nl2 :: y0 :: Y' := by simp [strm] at hs; exact hs.2
-    refine ⟨[.nothing, .nothing], [], st.defaultYear, by simp, ?_⟩
+    -- one Newline iteration
+    have hc1 : st.current = nl := by simp [strm] at hs; exact hs.1
+    have hsrc : st.src = y0 :: Y' := by simp [strm] at hs; exact hs.2
+    refine ⟨[.nothing], [], st.defaultYear, by simp, ?_⟩
     intro n m hn hm
     have hne : st.current.ty ≠ .eof := by rw [hc1, h1]; simp
-    have hm1 : measure (listEnv num cls) st = Y'.length + 3 := by
+    have hm1 : measure (listEnv num cls) st = Y'.length + 2 := by
       rw [measure_list, if_neg hne, hsrc]; simp
-    obtain ⟨n1, rfl⟩ : ∃ n1, n = n1 + 2 := ⟨n - 2, by omega⟩
-    have hst1 : advance (listEnv num cls) st = ⟨y0 :: Y', nl2, st.errors, st.defaultYear⟩ := by
+    obtain ⟨n1, rfl⟩ : ∃ n1, n = n1 + 1 := ⟨n - 1, by omega⟩
+    have hst1 : advance (listEnv num cls) st = ⟨Y', y0, st.errors, st.defaultYear⟩ := by
       simp [advance, listEnv, listSrc, hsrc]
-    have hst2 : advance (listEnv num cls) (⟨y0 :: Y', nl2, st.errors, st.defaultYear⟩ : PState (List Token)) =
-        ⟨Y', y0, st.errors, st.defaultYear⟩ := by
-      simp [advance, listEnv, listSrc]
-    have e1 : parseJournalF (listEnv num cls) (n1 + 2) st =
-        (jpush (parseJournalF (listEnv num cls) (n1 + 1) (advance (listEnv num cls) st)).1 .nothing,
-         (parseJournalF (listEnv num cls) (n1 + 1) (advance (listEnv num cls) st)).2) := by
+    have e1 : parseJournalF (listEnv num cls) (n1 + 1) st =
+        (jpush (parseJournalF (listEnv num cls) n1 (advance (listEnv num cls) st)).1 .nothing,
+         (parseJournalF (listEnv num cls) n1 (advance (listEnv num cls) st)).2) := by
       rw [parseJournalF]
       simp only [hne, if_false]
       rw [journalStep_newline _ st (by rw [hc1]; exact h1)]
-    have e2 : parseJournalF (listEnv num cls) (n1 + 1) (⟨y0 :: Y', nl2, st.errors, st.defaultYear⟩ : PState (List Token)) =
-        (jpush (parseJournalF (listEnv num cls) n1 ⟨Y', y0, st.errors, st.defaultYear⟩).1 .nothing,
-         (parseJournalF (listEnv num cls) n1 ⟨Y', y0, st.errors, st.defaultYear⟩).2) := by
-      rw [parseJournalF]
-      have : (⟨y0 :: Y', nl2, st.errors, st.defaultYear⟩ : PState (List Token)).current.ty ≠ .eof := by
-        simp [h2]
-      simp only [this, if_false]
-      rw [journalStep_newline _ _ (by simpa using h2), hst2]
-    rw [e1, hst1, e2]
+    rw [e1, hst1]
     simp only [List.append_nil] at hm ⊢
     have hfuel := parseJournalF_fuel (listEnv num cls) (listEnv_decr num cls) n1 m
       ⟨Y', y0, st.errors, st.defaultYear⟩ (by
@@ -144,15 +127,14 @@ theorem sync (y0 : Token) (Y' : List Token) (nl1 nl2 : Token) (h1 : nl1.ty = .ne
     · exact ih X st hXlen hX hs
     have hXne : X ≠ [] := by intro h; rw [h] at hXlen; simp at hXlen
     -- the stream up to its first EOF
-    have hs' : strm st = (X ++ nl1 :: nl2 :: Y1) ++ e :: Q := by
+    have hs' : strm st = (X ++ nl :: Y1) ++ e :: Q := by
       rw [hs, hY]; simp
-    have hPne : ∀ t ∈ X ++ nl1 :: nl2 :: Y1, t.ty ≠ .eof := by
+    have hPne : ∀ t ∈ X ++ nl :: Y1, t.ty ≠ .eof := by
       intro t ht
       simp only [List.mem_append, List.mem_cons] at ht
-      rcases ht with h | h | h | h
+      rcases ht with h | h | h
       · exact hX t h
       · rw [h, h1]; simp
-      · rw [h, h2]; simp
       · exact hY1 t h
     have hne : st.current.ty ≠ .eof := by
       cases X with
@@ -177,102 +159,73 @@ theorem sync (y0 : Token) (Y' : List Token) (nl1 nl2 : Token) (h1 : nl1.ty = .ne
     have hlt := journalStep_lt (listEnv num cls) (listEnv_decr num cls) st hne
     generalize hst1 : (journalStep (listEnv num cls) st).2 = st1 at *
     generalize hit : (journalStep (listEnv num cls) st).1 = item at *
+    -- continue from a state whose stream is `a' ++ nl :: y0 :: Y'` with `a'` shorter than `X`
+    have hcont : ∀ a', a'.length ≤ k → (∀ t ∈ a', t.ty ≠ .eof) → (∀ t ∈ C ++ a', t ∈ X) →
+        strm st1 = a' ++ nl :: y0 :: Y' →
+        ∃ items new dy, (∀ x ∈ new, ∃ t ∈ X ++ [nl], x.pos = t.pos) ∧
+          ∀ n m, measure (listEnv num cls) st ≤ n →
+            measure (listEnv num cls) ⟨Y', y0, st.errors ++ new, dy⟩ ≤ m →
+            parseJournalF (listEnv num cls) n st =
+              (pushAll items (parseJournalF (listEnv num cls) m ⟨Y', y0, st.errors ++ new, dy⟩).1,
+               (parseJournalF (listEnv num cls) m ⟨Y', y0, st.errors ++ new, dy⟩).2) := by
+      intro a' ha'len ha'X hsub hs1
+      obtain ⟨items, new2, dy, hpos2, hrun⟩ := ih a' st1 ha'len ha'X hs1
+      refine ⟨item :: items, new1 ++ new2, dy, ?_, ?_⟩
+      · intro x hx
+        simp only [List.mem_append] at hx
+        rcases hx with hx | hx
+        · obtain ⟨t, ht, hp⟩ := hpos1 x hx
+          refine ⟨t, ?_, hp⟩
+          have ht' := okSitesAux_sub _ _ t ht
+          have hcur : st1.current ∈ a' ++ [nl] := by
+            cases a' with
+            | nil => simp [strm] at hs1; simp [hs1.1]
+            | cons z zs => simp [strm] at hs1; simp [hs1.1]
+          simp only [List.mem_append, List.mem_singleton] at ht' hcur ⊢
+          rcases ht' with h | h
+          · exact Or.inl (hsub t (by simp [h]))
+          · rw [h]; rcases hcur with h' | h'
+            · exact Or.inl (hsub _ (by simp [h']))
+            · exact Or.inr h'
+        · obtain ⟨t, ht, hp⟩ := hpos2 x hx
+          refine ⟨t, ?_, hp⟩
+          simp only [List.mem_append, List.mem_singleton] at ht ⊢
+          rcases ht with h | h
+          · exact Or.inl (hsub t (by simp [h]))
+          · exact Or.inr h
+      · intro n m hn hm
+        obtain ⟨n1, rfl, hun⟩ := hstep n hn
+        rw [hun]
+        have hm' : measure (listEnv num cls) ⟨Y', y0, st1.errors ++ new2, dy⟩ ≤ m := by
+          simpa [measure_list] using hm
+        have := hrun n1 m (by omega) hm'
+        rw [this, herr1, List.append_assoc]
+        rfl
     rcases (List.append_eq_append_iff.1 hP') with ⟨c', hCa, hrest⟩ | ⟨a', hXa, hrest⟩
     · -- C = X ++ c' : the iteration consumed all of X and `c'` of what follows
       have hCX : C = X ++ c' := hCa
       match c', hrest with
       | [], hrest =>
-        -- stopped exactly in front of nl1: handled by the other case shape (X = C ++ [])
-        have hs1 : strm st1 = [] ++ nl1 :: nl2 :: y0 :: Y' := by
-          have : P' = nl1 :: nl2 :: Y1 := by simpa using hrest.symm
-          rw [hstrm1, this, hY]; simp
-        obtain ⟨items, new2, dy, hpos2, hrun⟩ := ih [] st1 (by simp) (by simp) hs1
-        refine ⟨item :: items, new1 ++ new2, dy, ?_, ?_⟩
-        · intro x hx
-          simp only [List.mem_append] at hx
-          rcases hx with hx | hx
-          · obtain ⟨t, ht, hp⟩ := hpos1 x hx
-            refine ⟨t, ?_, hp⟩
-            have ht' := okSitesAux_sub _ _ t ht
-            have hcur : st1.current = nl1 := by simp [strm] at hs1; exact hs1.1
-            rw [hCX, hcur] at ht'
-            simpa using ht'
-          · obtain ⟨t, ht, hp⟩ := hpos2 x hx
-            exact ⟨t, by simp at ht; simp [ht], hp⟩
-        · intro n m hn hm
-          obtain ⟨n1, rfl, hun⟩ := hstep n hn
-          rw [hun]
-          have hm' : measure (listEnv num cls) ⟨Y', y0, st1.errors ++ new2, dy⟩ ≤ m := by
-            simpa [measure_list] using hm
-          have := hrun n1 m (by omega) hm'
-          rw [this, herr1, List.append_assoc]
-          rfl
+        have hP'' : P' = nl :: Y1 := by simpa using hrest.symm
+        have hs1 : strm st1 = [] ++ nl :: y0 :: Y' := by rw [hstrm1, hP'', hY]; simp
+        exact hcont [] (by simp) (by simp) (by intro t ht; rw [hCX] at ht; simpa using ht) hs1
       | [t1], hrest =>
-        -- consumed X ++ [nl1]; the next iteration skips nl2
-        have ht1 : t1 = nl1 ∧ P' = nl2 :: Y1 := by simp at hrest; exact ⟨hrest.1.symm, hrest.2.symm⟩
-        have hs1 : strm st1 = nl2 :: y0 :: Y' := by rw [hstrm1, ht1.2, hY]; simp
-        have hst1' := strm_eq_cons hs1
-        refine ⟨[item, .nothing], new1, st1.defaultYear, ?_, ?_⟩
-        · intro x hx
-          obtain ⟨t, ht, hp⟩ := hpos1 x hx
-          refine ⟨t, ?_, hp⟩
-          have hcur : st1.current = nl2 := by simp [strm] at hs1; exact hs1.1
-          rw [hCX, ht1.1, hcur] at ht
-          unfold okSites at ht
-          rw [okSitesAux_append] at ht
-          have : lastNL false (X ++ [nl1]) = true := by
-            rw [lastNL_append]; simp [lastNL, h1]
-          rw [this] at ht
-          simp only [okSitesAux, if_true, List.append_nil, List.nil_append] at ht
-          have := okSitesAux_sub _ _ t (by simpa using ht)
-          exact this
-        · intro n m hn hm
-          obtain ⟨n1, rfl, hun⟩ := hstep n hn
-          rw [hun]
-          have hne1 : st1.current.ty ≠ .eof := by
-            have : st1.current = nl2 := by simp [strm] at hs1; exact hs1.1
-            rw [this, h2]; simp
-          have hm1 : 1 ≤ measure (listEnv num cls) st1 := by rw [measure_list, if_neg hne1]; omega
-          obtain ⟨n2, rfl⟩ : ∃ n2, n1 = n2 + 1 := ⟨n1 - 1, by omega⟩
-          have hadv : advance (listEnv num cls) st1 = ⟨Y', y0, st1.errors, st1.defaultYear⟩ := by
-            rw [hst1']; simp [advance, listEnv, listSrc]
-          have e2 : parseJournalF (listEnv num cls) (n2 + 1) st1 =
-              (jpush (parseJournalF (listEnv num cls) n2 ⟨Y', y0, st1.errors, st1.defaultYear⟩).1 .nothing,
-               (parseJournalF (listEnv num cls) n2 ⟨Y', y0, st1.errors, st1.defaultYear⟩).2) := by
-            rw [parseJournalF]
-            simp only [hne1, if_false]
-            rw [journalStep_newline _ st1 (by
-              have : st1.current = nl2 := by simp [strm] at hs1; exact hs1.1
-              rw [this]; exact h2), hadv]
-          rw [e2]
-          have hlt1 := advance_lt (listEnv num cls) (listEnv_decr num cls) st1 hne1
-          rw [hadv] at hlt1
-          rw [herr1] at hlt1 ⊢
-          have hfuel := parseJournalF_fuel (listEnv num cls) (listEnv_decr num cls) n2 m
-            ⟨Y', y0, st.errors ++ new1, st1.defaultYear⟩ (by omega) hm
-          rw [hfuel]
-          rfl
-      | [t1, t2], hrest =>
-        have ht : t1 = nl1 ∧ t2 = nl2 ∧ P' = Y1 := by
-          simp at hrest; exact ⟨hrest.1.symm, hrest.2.1.symm, hrest.2.2.symm⟩
-        have hs1 : strm st1 = y0 :: Y' := by rw [hstrm1, ht.2.2, hY]
-        have hst1' := strm_eq_cons hs1
+        -- consumed X ++ [nl]: the loop is at its head in front of y0
+        have ht : t1 = nl ∧ P' = Y1 := by simp at hrest; exact ⟨hrest.1.symm, hrest.2.symm⟩
+        have hs1 : strm st1 = y0 :: Y' := by rw [hstrm1, ht.2, hY]
         refine ⟨[item], new1, st1.defaultYear, ?_, ?_⟩
         · intro x hx
           obtain ⟨t, htm, hp⟩ := hpos1 x hx
           refine ⟨t, ?_, hp⟩
           have hcur : st1.current = y0 := by simp [strm] at hs1; exact hs1.1
-          rw [hCX, ht.1, ht.2.1, hcur] at htm
+          rw [hCX, ht.1, hcur] at htm
           unfold okSites at htm
-          have e3 : X ++ [nl1, nl2] ++ [y0] = (X ++ [nl1]) ++ ([nl2] ++ [y0]) := by simp
-          rw [e3, okSitesAux_append] at htm
-          have hl : lastNL false (X ++ [nl1]) = true := by
+          rw [okSitesAux_append] at htm
+          have hl : lastNL false (X ++ [nl]) = true := by
             rw [lastNL_append]; simp [lastNL, h1]
           rw [hl] at htm
-          simp only [okSitesAux, if_true, List.append_nil, List.nil_append, List.cons_append, h2,
-            decide_true] at htm
-          have := okSitesAux_sub _ _ t (by simpa using htm)
-          exact this
+          simp only [okSitesAux, if_true, List.append_nil] at htm
+          exact okSitesAux_sub _ _ t htm
         · intro n m hn hm
           obtain ⟨n1, rfl, hun⟩ := hstep n hn
           rw [hun]
@@ -284,61 +237,26 @@ theorem sync (y0 : Token) (Y' : List Token) (nl1 nl2 : Token) (h1 : nl1.ty = .ne
             ⟨Y', y0, st.errors ++ new1, dy1⟩ (by omega) hm
           rw [hfuel]
           rfl
-      | t1 :: t2 :: t3 :: r, hrest =>
-        -- impossible: the automaton rejects a non-Indent token after two Newlines
+      | t1 :: t2 :: r, hrest =>
+        -- impossible: after a Newline the iteration continues only with a Newline or an Indent
         exfalso
-        have ht : t1 = nl1 ∧ t2 = nl2 ∧ t3 :: (r ++ P') = Y1 := by
-          simp at hrest; exact ⟨hrest.1.symm, hrest.2.1.symm, by simp [hrest.2.2]⟩
-        have hy0 : t3 = y0 := by
-          have := ht.2.2
+        have ht : t1 = nl ∧ t2 :: (r ++ P') = Y1 := by
+          simp at hrest; exact ⟨hrest.1.symm, by simp [hrest.2]⟩
+        have hy0 : t2 = y0 := by
+          have := ht.2
           rw [← this] at hY
           simp at hY
           exact hY.1.symm
-        rw [hCX, ht.1, ht.2.1, hy0, nc_cross 0 X r nl1 nl2 y0 h1 h2 hy] at hnc
+        rw [hCX, ht.1, hy0, nc_cross 0 X r nl y0 h1 hy hy'] at hnc
         simp at hnc
-
     · -- X = C ++ a' : the iteration stopped inside X (or exactly at its end)
-      have hs1 : strm st1 = a' ++ nl1 :: nl2 :: y0 :: Y' := by
+      have hs1 : strm st1 = a' ++ nl :: y0 :: Y' := by
         rw [hstrm1, hrest, hY]; simp
       have ha'len : a'.length ≤ k := by
         have : X.length = C.length + a'.length := by rw [hXa]; simp
         have : 0 < C.length := List.length_pos_iff.2 hCne
         omega
-      have ha'X : ∀ t ∈ a', t.ty ≠ .eof := fun t ht => hX t (by rw [hXa]; simp [ht])
-      obtain ⟨items, new2, dy, hpos2, hrun⟩ := ih a' st1 ha'len ha'X hs1
-      refine ⟨item :: items, new1 ++ new2, dy, ?_, ?_⟩
-      · intro x hx
-        simp only [List.mem_append] at hx
-        rcases hx with hx | hx
-        · obtain ⟨t, ht, hp⟩ := hpos1 x hx
-          refine ⟨t, ?_, hp⟩
-          have ht' := okSitesAux_sub _ _ t ht
-          have hcur : st1.current ∈ a' ++ [nl1] := by
-            cases a' with
-            | nil => simp [strm] at hs1; simp [hs1.1]
-            | cons z zs => simp [strm] at hs1; simp [hs1.1]
-          simp only [List.mem_append, List.mem_singleton] at ht' hcur ⊢
-          rw [hXa]
-          simp only [List.mem_append]
-          rcases ht' with h | h
-          · exact Or.inl (Or.inl h)
-          · rw [h]; rcases hcur with h' | h'
-            · exact Or.inl (Or.inr h')
-            · exact Or.inr h'
-        · obtain ⟨t, ht, hp⟩ := hpos2 x hx
-          refine ⟨t, ?_, hp⟩
-          rw [hXa]
-          simp only [List.mem_append, List.mem_singleton] at ht ⊢
-          rcases ht with h | h
-          · exact Or.inl (Or.inr h)
-          · exact Or.inr h
-      · intro n m hn hm
-        obtain ⟨n1, rfl, hun⟩ := hstep n hn
-        rw [hun]
-        have hm' : measure (listEnv num cls) ⟨Y', y0, st1.errors ++ new2, dy⟩ ≤ m := by
-          simpa [measure_list] using hm
-        have := hrun n1 m (by omega) hm'
-        rw [this, herr1, List.append_assoc]
-        rfl
+      exact hcont a' ha'len (fun t ht => hX t (by rw [hXa]; simp [ht]))
+        (by intro t ht; rw [hXa]; exact ht) hs1
 
 end HL.Parser
